@@ -559,6 +559,13 @@ class C18(World):
                 probe("unit_system_switched_after_solve")
                 outcome = "ok"
             elif op == "read":
+                # the whole read-only public surface; none of it may change what the object reports afterwards
+                for nm in ("system", "state", "cycle_states", "states", "state_points", "Hs", "Ss", "Ts", "Ps", "q_evap", "Q_evap", "Q_cond", "w_net", "work", "dtcont", "COP_h", "COP_r", "dt_diff_max", "refrigerant", "T_evap", "T_cond", "dT_superheat", "dT_subcool", "eta_comp", "ihx_gas_dt"):
+                    try:
+                        getattr(c, nm)
+                    except Exception as e:
+                        log.append(("read_exc", nm, type(e).__name__))
+                probe("public_surface_read")
                 outcome = "ok"
             # ---- invariants on every solved judged object after every step
             for j in range(n_obj):
